@@ -35,7 +35,8 @@ static void mhook(const volatile void *p, size_t n) { if (win_open) win_mallocs+
 static void fhook(const volatile void *p) { }
 static size_t heap0;
 
-static void c16_call_begin(struct c16_res *r) { heap0 = vh_heap_bytes(); win_mallocs = 0; win_open = 1; }
+static void c16_globals_snap(void);
+static void c16_call_begin(struct c16_res *r) { c16_globals_snap(); heap0 = vh_heap_bytes(); win_mallocs = 0; win_open = 1; }
 static void c16_call_end(struct c16_res *r) { win_open = 0; r->mallocs = win_mallocs; r->heap_delta = (long) vh_heap_bytes() - (long) heap0; r->reached_end = 1; }
 
 /* ---- snapshots of the other (valid) arguments: the heap block and, one level down, every heap block it points to ---- */
@@ -64,8 +65,31 @@ static void c16_snap_arg(struct c16_res *r, const void *p, const char *type)
     }
     (void) first;
 }
+#ifdef C16_GLOBALS_INC
+#include C16_GLOBALS_INC
+static char *gsnap; static size_t gsnap_n;
+static void c16_globals_snap(void)
+{
+    size_t n = 0;
+    for (int i = 0; C16_GLOBALS[i].name; i++) n += C16_GLOBALS[i].n;
+    if (!gsnap) { gsnap = malloc(n ? n : 1); gsnap_n = n; }
+    size_t o = 0;
+    for (int i = 0; C16_GLOBALS[i].name; i++) { memcpy(gsnap + o, C16_GLOBALS[i].p, C16_GLOBALS[i].n); o += C16_GLOBALS[i].n; }
+}
+static const char *c16_globals_changed(void)
+{
+    size_t o = 0;
+    for (int i = 0; C16_GLOBALS[i].name; i++) { if (memcmp(gsnap + o, C16_GLOBALS[i].p, C16_GLOBALS[i].n)) return C16_GLOBALS[i].name; o += C16_GLOBALS[i].n; }
+    return NULL;
+}
+#else
+static void c16_globals_snap(void) { }
+static const char *c16_globals_changed(void) { return NULL; }
+#endif
+
 static void c16_snap_check(struct c16_res *r)
 {
+    { const char *g = c16_globals_changed(); if (g) { r->snap_changed = 1; snprintf(r->snap_what, sizeof r->snap_what, "library variable %s", g); return; } }
     for (int i = 0; i < nsnaps; i++) {
         if (vh_alloc_size(snaps[i].p) != snaps[i].n || memcmp(snaps[i].p, snaps[i].copy, snaps[i].n)) {
             r->snap_changed = 1; snprintf(r->snap_what, sizeof r->snap_what, "%s", snaps[i].what);
@@ -86,7 +110,7 @@ static spif_obj_t mk_obj(int v) { return (v & 1) ? (spif_obj_t) spif_objpair_new
 static spif_objpair_t mk_pair(int v) { return (v & 1) ? spif_objpair_new_from_value(mk_obj0()) : spif_objpair_new_from_both(mk_obj0(), mk_obj0()); }
 static spif_tok_t mk_tok(int v) { if (v & 1) return spif_tok_new(); spif_tok_t t = spif_tok_new_from_ptr((spif_charptr_t) "a b c"); spif_tok_eval(t); return t; }
 static spif_url_t mk_url(int v) { return (v & 1) ? spif_url_new() : spif_url_new_from_ptr((spif_charptr_t) "http://user:pw@host:80/path?q"); }
-static spif_regexp_t mk_regexp(void) { return spif_regexp_new_from_ptr((spif_charptr_t) "a.c"); }
+static spif_regexp_t mk_regexp(int v) { return spif_regexp_new_from_ptr((spif_charptr_t) ((v & 1) ? "x*" : "a.c")); }     /* odd: a pattern that matches the empty text */
 static spif_socket_t mk_socket(void) { return spif_socket_new(); }
 static void fill(spif_obj_t c, int k)
 {
@@ -128,6 +152,7 @@ static spif_linked_list_item_t mk_llitem(void) { return mk_llist(KL)->head; }
 static spif_dlinked_list_item_t mk_dlitem(void) { return mk_dlist(KL)->head; }
 static spif_ipsockaddr_t mk_ipaddr(void) { return calloc(1, sizeof(struct sockaddr_in)); }
 static spif_unixsockaddr_t mk_unaddr(void) { return calloc(1, sizeof(struct sockaddr_un)); }
+static spifmem_memrec_t *mk_memrec(void) { spifmem_memrec_t *r = calloc(1, sizeof *r); r->ptrs = calloc(4, sizeof *r->ptrs); return r; }
 static void *c16_ctx_handler(char *a, void *b) { return b; }
 static char *c16_builtin(char *a) { return a; }
 
